@@ -41,7 +41,8 @@ def _prims(thorough: bool) -> typing.List[typing.Tuple[str, str, bool]]:
     return out  # byte / utf8 are only valid as array elements: see L2
 
 
-def universe(thorough: bool) -> typing.List[TypeDef]:
+def universe(thorough: bool, big: bool = False) -> typing.List[TypeDef]:
+    """big=True adds the L2x types (arrays with thousands of elements): only the checks without per-byte sweeps ask for them."""
     out: typing.List[TypeDef] = []
     # ---- L1 primitive x bit offset x neighbours
     for tag, expr, c in _prims(thorough):
@@ -78,6 +79,29 @@ def universe(thorough: bool) -> typing.List[TypeDef]:
             for k in (0, 1):
                 pre = "" if k == 0 else f"truncated uint{k} p\n"
                 out.append(TypeDef(f"L2{et}{kt}k{k}", "L2", f"{pre}{ee}{ke} x\nuint8 tail\n@sealed\n", k == 0))
+    # capacities inside (2^(w-1), 2^w - 1): the length prefix (w bits) can still encode values above the capacity, although
+    # capacity.bit_length() == w (a "prefix cannot exceed the capacity" shortcut keyed on the bit length is wrong here)
+    for et, ee in (("b", "bool"), ("u8", "uint8"), ("i13", "int13")):
+        for kt, ke in (("v128", "[<=128]"), ("v200", "[<=200]"), ("v254", "[<=254]")):
+            for k in (0, 1):
+                if et == "i13" and kt != "v200":
+                    continue
+                pre = "" if k == 0 else f"truncated uint{k} p\n"
+                out.append(TypeDef(f"L2{et}{kt}k{k}", "L2", f"{pre}{ee}{ke} x\nuint8 tail\n@sealed\n", k == 0 and kt == "v200" and et != "i13"))
+    if big:
+        # 16- and 32-bit length prefixes (bool arrays stay small on the wire: 40000 bools = 5000 bytes)
+        for et, ee, kt, ke, core in (
+            ("u8", "uint8", "v300", "[<=300]", True),
+            ("b", "bool", "v40000", "[<=40000]", True),
+            ("b", "bool", "v32768", "[<=32768]", False),
+            ("b", "bool", "v65534", "[<=65534]", False),
+            ("b", "bool", "v65535", "[<=65535]", False),
+            ("b", "bool", "v65536", "[<=65536]", True),
+            ("u8", "uint8", "v40000", "[<=40000]", False),
+        ):
+            for k in (0, 1):
+                pre = "" if k == 0 else f"truncated uint{k} p\n"
+                out.append(TypeDef(f"L2{et}{kt}k{k}", "L2x", f"{pre}{ee}{ke} x\nuint8 tail\n@sealed\n", core and k == 0))
     # ---- L3 composition
     inners = {
         "Ie": "@sealed\n",
